@@ -181,12 +181,80 @@ def nontrivial(c, r):
     return r.get("out") is not None and r["out"] != c["text"]
 
 
+# ---------------------------------------------------------------- end to end: injected comments survive
+
+E2E_KINDS = ["item", "assoc_item", "stmt", "field", "variant", "arm", "param", "arg", "expr_field"]
+
+
+def e2e(rep, tier, seed):
+    import hashlib
+    import random
+    from . import pool
+    P = [p for p in pool.load() if p["id"].startswith("source/")]
+    MOD = 6
+    if tier != "thorough":
+        P = [p for p in P if int(hashlib.sha1(p["id"].encode()).hexdigest()[:6], 16) % MOD == seed % MOD]
+    nodes = common.run_vh_pool("nodes", [{"text": p["text"], "config": p["header"]} for p in P], per_case_timeout=20)
+    cases, meta = [], []
+    for p, nd in zip(P, nodes):
+        if not isinstance(nd, dict) or not nd.get("nodes"):
+            continue
+        if "rustfmt::skip" in p["text"] or "rustfmt_skip" in p["text"] or "macro_rules" in p["text"]:
+            continue
+        rnd = random.Random(p["id"])
+        b = p["text"].encode("utf-8")
+        by_kind = {}
+        for kind, lo, hi, parent in nd["nodes"]:
+            if kind in E2E_KINDS:
+                by_kind.setdefault(kind, []).append((lo, hi))
+        n = 0
+        for kind, spans in sorted(by_kind.items()):
+            for (lo, hi) in rnd.sample(spans, min(2, len(spans))):
+                for style in ("block_before", "line_before", "line_after"):
+                    n += 1
+                    mark = "CMT%dQ" % n
+                    if style == "block_before":
+                        text = b[:lo] + ("/* %s */ " % mark).encode() + b[lo:]
+                    elif style == "line_before":
+                        text = b[:lo] + ("// %s\n" % mark).encode() + b[lo:]
+                    else:
+                        # at the end of the element's last line: after the element and a directly following , or ;
+                        j = hi
+                        if j < len(b) and b[j:j + 1] in (b",", b";"):
+                            j += 1
+                        k = b.find(b"\n", j)
+                        if k < 0 or b[j:k].strip() != b"":
+                            continue
+                        text = b[:j] + (" // %s" % mark).encode() + b[j:]
+                    cases.append({"text": text.decode("utf-8", "replace"), "config": p["header"], "again": False, "lex": False})
+                    meta.append((p["id"], kind, style, mark))
+    res = common.run_vh_pool("pool", cases, per_case_timeout=15)
+    found = n = 0
+    per = {}
+    for (pid, kind, style, mark), c, r in zip(meta, cases, res):
+        if not pool.accepted(r) or r["out"] == "":
+            continue
+        n += 1
+        per[(kind, style)] = per.get((kind, style), 0) + 1
+        cnt = r["out"].count(mark)
+        if cnt != 1:
+            key = "comment_%s:%s:%s:%s" % ("lost" if cnt == 0 else "duplicated", kind, style, pid)
+            if rep.violation(key, {"pool_id": pid, "kind": kind, "style": style, "marker": mark, "config": c["config"], "input": c["text"], "out": r["out"]},
+                             "a comment injected %s a %s of %s appears %d times in the output" % (style.replace("_", " "), kind, pid, cnt)):
+                found += 1
+    rep.coverage["e2e_injections_judged"] = n
+    rep.coverage["e2e_per_position"] = {"%s/%s" % k: v for k, v in sorted(per.items())}
+    rep.coverage["e2e_rule"] = "pool source programs (thorough: all; quick: the 1/%d selected by the seed) x up to 2 elements of each kind %s x {block comment before, line comment on its own line before, line comment at the end of the element's line}: the marker comment must appear exactly once in the output of every accepted run" % (MOD, E2E_KINDS)
+    return found
+
+
 def run(tier, seed, replay):
     return common.standard_run(
         PROP, tier, seed, replay,
         dirs=["C03"], props_file="C03/Props.v", trusted=TRUSTED, gen_cases=gen_cases, vh_sub="c03",
         imports="From V Require Import Base.Text C03.Model C03.Run.\nOpen Scope N_scope.",
         model_expr=model_expr, canon_model=canon_model, canon_impl=canon_impl, oracle=oracle, nontrivial=nontrivial,
+        extra=e2e,
         rule="(a) seeded random texts from comment / string / char-literal / raw-string fragments: classification, ungrouped and grouped slices with byte offsets, payload, filter_normal_code compared with the model; (b) pairs of such texts (random, or one char edited): changed_comment_content compared; (c) generated line / multi-line / block / star-prefixed comments with long words, URLs, list markers through rewrite_comment under wrap_comments x normalize_comments x widths: payload (model) and word sequence preserved. non-trivial = >= 2 slices / differing pair / comment actually rewritten; distinct by hash",
         per_file=150,
     )
